@@ -337,6 +337,39 @@ def run(ctx):
                     for e in compare(ws, b, pkgdir, profile):
                         ctx.violation(f"stale output survives: seed exists={seed['exists']} cur={len(seed['cur'])} stale={len(seed['stale'])}",
                                       f"{label}: after pre-seeding {victims} with {seed}: {e}", {"label": label, "seed": seed, "buildpack": b}, "cargo_libcnb")
+            # (b2) real interruption: the packaging process is killed at its k-th file-system call beneath
+            # the package directory (LD_PRELOAD shim in kill mode); a clean rerun must converge
+            if profile == "debug" and wi == 0:
+                from checks import c12
+                so = c12.build_shim()
+                logf = os.path.join(base, "calls.log")
+                if os.path.exists(logf):
+                    os.remove(logf)
+                penv = dict(env, LD_PRELOAD=so, FAULT_PREFIX=pkgdir, FAULT_ACTIVE="1", FAULT_K="0", FAULT_LOG=logf)
+                sh([cargo_libcnb, "libcnb", "package", "--target", TARGET, "--no-cross-compile-assistance", *extra_args], cwd=ws.root, env=penv)
+                n_calls = sum(1 for _ in open(logf)) if os.path.exists(logf) else 0
+                if n_calls < 10:
+                    raise vlib.ToolError(f"the shim saw only {n_calls} file-system calls beneath the package directory")
+                ks = list(range(1, n_calls + 1))
+                if quick:
+                    ks = sorted(set(rng.sample(ks, min(10, len(ks))) + [1, n_calls]))
+                killed = 0
+                for k in ks:
+                    penv = dict(env, LD_PRELOAD=so, FAULT_PREFIX=pkgdir, FAULT_ACTIVE="1", FAULT_K=str(k), FAULT_KILL="1")
+                    pk = sh([cargo_libcnb, "libcnb", "package", "--target", TARGET, "--no-cross-compile-assistance", *extra_args], cwd=ws.root, env=penv)
+                    killed += pk.returncode != 0
+                    p = package(ws, ws.root, extra_args)
+                    distinct += 1
+                    if p.returncode != 0:
+                        continue
+                    for b in ws.all_ids():
+                        for e in compare(ws, b, pkgdir, profile):
+                            ctx.violation("output differs after an interrupted run", f"{label}: packaging killed at file-system call {k} of {n_calls}, "
+                                          f"then re-run: {e}", {"label": label, "k": k, "buildpack": b}, "cargo_libcnb")
+                if killed < len(ks) // 2:
+                    raise vlib.ToolError(f"interruption did not take effect ({killed} of {len(ks)} runs died)")
+                ctx.cov["interrupted_runs"] = len(ks)
+                ctx.cov["fs_calls_beneath_package_dir"] = n_calls
             # (c) packaging from one buildpack's own directory
             for b in ([rng.choice(list(ws.composites))] if ws.composites else []) + [rng.choice(list(ws.crates))]:
                 others_before = {o: snapshot(out_dir(pkgdir, profile, o)) for o in ws.all_ids() if o not in ws.closure([b])}
